@@ -35,47 +35,57 @@ def run(ctx):
     ids = [i for i in MENU if i not in MIXED]
     cases = generate(ctx, ids, 3 if ctx.quick else 4, ["", "Z"], COMMONS, "C07")
     rnd = random.Random(ctx.seed)
-    R = 6 if ctx.quick else 16
-    jobs, meta = [], []
-    for ci, c in enumerate(cases):
-        orders = list(itertools.permutations(sorted(c["sel"])))
-        if ctx.quick and len(orders) > 3:
-            orders = rnd.sample(orders, 3)
-        for o in orders:
-            for rep in range(R if len(c["common"]) > 1 else 2):
-                jobs.append({"id": len(jobs), "calls": scenario_calls(list(o), c["prefix"], c["common"])})
-                meta.append((ci, o))
-    res = run_api(ctx, exe, jobs, "gather", nproc=12)
+    R = 6 if ctx.quick else 12
     first = {}
     nok = 0
+    njobs = 0
     label_orders = {}
-    for j, (ci, o) in zip(jobs, meta):
-        rs = res[j["id"]]
-        bad = [x for x in rs if "ok" not in x]
-        c = cases[ci]
-        rp = {"calls": j["calls"], "case": c}
-        if bad:
-            ctx.violation("call-failed", "a call of an admissible scenario failed: %s" % bad[0], rp)
-            continue
-        fams = rs[-1]["ok"]
-        why = compare(c, fams)
-        if why:
-            ctx.violation("gather-differs-from-spec:" + why.split(":")[0].split(" ")[0], "registry %s prefix=%r common=%s order=%s: %s" % (sorted(c["sel"]), c["prefix"], c["common"], list(o), why), rp)
-            continue
-        canon = json.dumps(fams, sort_keys=True)
-        if ci not in first:
-            first[ci] = (canon, j)
-        elif first[ci][0] != canon:
-            # where do they differ?  (only the position of labels inside a sample can still differ here)
-            ctx.violation("nondeterministic:label-order" if len(c["common"]) > 1 else "nondeterministic", "two gathers of the same registry content differ (registration orders %s vs %s, fresh hash seeds): %s" % (
-                meta[first[ci][1]["id"]][1], list(o), first_diff(json.loads(first[ci][0]), fams)), {"calls": j["calls"], "calls_other": first[ci][1]["calls"], "case": c})
-            continue
-        if len(c["common"]) > 1 and fams:
-            label_orders.setdefault(ci, set()).add(tuple(n for n, _ in fams[0]["metrics"][0]["labels"]))
-        nok += 1
+    for off, part in chunks(list(enumerate(cases)), 400):
+        jobs, meta = [], []
+        for ci, c in part:
+            orders = list(itertools.permutations(sorted(c["sel"])))
+            cap = 3 if ctx.quick else 6
+            if len(orders) > cap:
+                orders = rnd.sample(orders, cap)
+            for o in orders:
+                for rep in range(R if len(c["common"]) > 1 else 2):
+                    jobs.append({"id": len(jobs), "calls": scenario_calls(list(o), c["prefix"], c["common"])})
+                    meta.append((ci, o))
+        res = run_api(ctx, exe, jobs, "gather%d" % off, nproc=12)
+        njobs += len(jobs)
+        for j, (ci, o) in zip(jobs, meta):
+            rs = res[j["id"]]
+            bad = [x for x in rs if "ok" not in x]
+            c = cases[ci]
+            rp = {"calls": j["calls"], "case": c}
+            if bad:
+                ctx.violation("call-failed", "a call of an admissible scenario failed: %s" % bad[0], rp)
+                continue
+            fams = rs[-1]["ok"]
+            why = compare(c, fams)
+            if why:
+                ctx.violation("gather-differs-from-spec:" + why.split(":")[0].split(" ")[0], "registry %s prefix=%r common=%s order=%s: %s" % (sorted(c["sel"]), c["prefix"], c["common"], list(o), why), rp)
+                continue
+            canon = json.dumps(fams, sort_keys=True)
+            if ci not in first:
+                first[ci] = (canon, list(o), j["calls"])
+            elif first[ci][0] != canon:
+                ctx.violation("nondeterministic:label-order" if len(c["common"]) > 1 else "nondeterministic", "two gathers of the same registry content differ (registration orders %s vs %s, fresh hash seeds): %s" % (
+                    first[ci][1], list(o), first_diff(json.loads(first[ci][0]), fams)), {"calls": j["calls"], "calls_other": first[ci][2], "case": c})
+                continue
+            if len(c["common"]) > 1 and fams:
+                label_orders.setdefault(ci, set()).add(tuple(n for n, _ in fams[0]["metrics"][0]["labels"]))
+            nok += 1
+        for ci, _ in part:
+            if ci in first:
+                first[ci] = (None, None, None) if False else first[ci]
+        del res, jobs
+        # canonical forms of finished configurations are no longer needed
+        for ci, _ in part:
+            first.pop(ci, None)
     ctx.cov.update({
         "traces_validated_against_impl": nok,
-        "configurations": len(cases), "gathers": len(jobs), "gathers_conforming": nok,
+        "configurations": len(cases), "gathers": njobs, "gathers_conforming": nok,
         "distinct_label_orders_seen_max": max([len(v) for v in label_orders.values()] + [0]),
         "samples": [cases[len(cases) // 2]], "exhaustive": not ctx.quick,
         "rule": "TLC enumerates every registry built from <=3-4 of 9 collectors (counters sharing a name, vectors with 0-6 children over ordered value pool, histograms, pulling gauge) x prefix x 0/1/3 common labels "
